@@ -12,7 +12,7 @@ ORIG = (pickle.load, pickle.loads, _pickle.load, _pickle.loads)     # before fic
 CONFIG = dict(
     level="exploration",
     rule=("operation histories over {arm global check, activate ML env, activate ML env with additions, remove "
-          "hooks, enter context, leave context normally, leave context by exception} with contexts nested up "
+          "hooks (remove_hook and its documented twin deactivate_safe_ml_environment), enter context, leave context normally, leave context by exception} with contexts nested up "
           "to depth 3, bounded-exhaustive up to the tier's length plus seeded random histories of length 40; "
           "after *every* step all four entry points (pickle.load, pickle.loads, _pickle.load, _pickle.loads) "
           "are probed with a flagged but harmless pickle (vp_sink.hit; also behind a header, behind bytes that are no opcode "
@@ -35,7 +35,7 @@ CONFIG = dict(
     required_counters=("steps", "probes", "twin_probes", "context_exits_compared", "removals_checked"),
 )
 
-OPS = ["arm", "ml", "ml+", "remove", "enter", "leave", "leave_exc"]
+OPS = ["arm", "ml", "ml+", "remove", "deact", "enter", "leave", "leave_exc"]     # deact: the documented twin of remove
 FLAGGED = b"cvp_sink\nhit\n(S'probe'\ntR."
 ADDITION_PROBE = b"ccollections\nCounter\n)R."      # allowed exactly while the 'ml+' additions are in force
 HOSTILE = (FLAGGED + b"trailing", b"\x00" + FLAGGED, b"\n" + FLAGGED, b"\xff" + FLAGGED, b" " + FLAGGED,
@@ -177,8 +177,11 @@ def run_history(ctx, mods, hist):
             elif op == "ml+":
                 hook.activate_safe_ml_environment(also_allow=["collections.Counter"])
                 model = ["ml+"] * 4
-            elif op == "remove":
-                hook.remove_hook()
+            elif op in ("remove", "deact"):
+                if op == "remove":
+                    hook.remove_hook()
+                else:
+                    hook.deactivate_safe_ml_environment()
                 model = ["orig"] * 4
             elif op == "enter":
                 stack.append((list(model), bindings(), probe_all(U)))
@@ -237,7 +240,7 @@ def run_history(ctx, mods, hist):
                                   f"model says {NAMES[i]} is protected ({model[i]}) but the flagged probe {beh[i]}",
                                   dict(w, steps=list(steps), behaviour=beh, model=list(model)))
                     return
-            if op == "remove" and not cms:
+            if op in ("remove", "deact") and not cms:
                 agg.count("removals_checked")
                 now = bindings()
                 if any(now[i] is not ORIG[i] for i in range(4)):
